@@ -52,6 +52,7 @@ def run(ctx: Context) -> None:
     ctx.rule("C12e", "no exported native kernel writes through a Matrix/Vector that shares its buffer with a numpy argument")
     clause_a(ctx, idx)
     clause_b(ctx, idx, reg)
+    clause_b_copies(ctx, idx)
     clause_cd(ctx, idx, reg)
     clause_e(ctx)
 
@@ -391,6 +392,47 @@ def clause_b(ctx: Context, idx, reg) -> None:
         ctx.violation("C12b", key, ap.file, c.lineno,
                       "registering a program inside another applies on_modes to the inner program's own instruction objects "
                       "(their modes are overwritten; the inner program is not reusable)", norm(c)[:80])
+
+
+def clause_b_copies(ctx: Context, idx) -> None:
+    """`.copy()` is what (b) relies on: every copy method of states, instructions/programs and Config must be deep."""
+    state_base = idx.find_class("piquasso.api.state", "State")
+    owners = [c for c in idx.subclasses(state_base, strict=False) if "copy" in c.methods]
+    owners.append(idx.find_class("piquasso.core._mixins", "RegisterMixin"))
+    owners.append(idx.find_class("piquasso.api.config", "Config"))
+    n = 0
+    for c in owners:
+        m = c.methods.get("copy")
+        if m is None:
+            raise AnalysisError(f"anchor vanished: {c.qualname}.copy")
+        n += 1
+        key = f"{m.qualname}|deep"
+        deep = any(dotted(x.func) in ("copy.deepcopy", "deepcopy") and x.args and isinstance(x.args[0], ast.Name) and x.args[0].id == "self"
+                   for x in calls_in(m.node))
+        problems = []
+        if not deep:
+            # a hand-written copy: every attribute taken from self must go through a copying operation
+            for a in ast.walk(m.node):
+                if isinstance(a, ast.Assign) and isinstance(a.targets[0], ast.Attribute) and not (
+                        isinstance(a.targets[0].value, ast.Name) and a.targets[0].value.id == "self"):
+                    v = a.value
+                    takes_from_self = any(isinstance(x, ast.Attribute) and isinstance(x.value, ast.Name) and x.value.id == "self" for x in ast.walk(v))
+                    copies = isinstance(v, ast.Call) and ((dotted(v.func) or "").split(".")[-1] in ("copy", "deepcopy", "array"))
+                    if takes_from_self and not copies:
+                        problems.append((a.lineno, f"`{norm(a)[:70]}` shares the attribute with the original"))
+            built = [x for x in calls_in(m.node) if norm(x.func) in ("self.__class__", "type(self)", c.name)]
+            if not built and not problems:
+                problems.append((m.line, "neither copy.deepcopy(self) nor a freshly constructed object"))
+            for kw in [k for x in built for k in x.keywords]:
+                if kw.arg == "config" and not (isinstance(kw.value, ast.Call) and isinstance(kw.value.func, ast.Attribute) and kw.value.func.attr == "copy"):
+                    # State.__init__ copies its config argument itself (checked above), so this is accepted
+                    pass
+        ctx.obligation("C12b", key, not problems, f"{ctx.relpath(m.file)}:{m.line}", deepcopy=deep)
+        for line, msg in problems:
+            ctx.violation("C12b", key, m.file, line,
+                          f"{c.name}.copy() is not a deep copy: {msg}; execution on the copy of initial_state / a registered "
+                          f"instruction / the user's Config then modifies the caller's object", norm(m.node).split("\n")[0])
+    ctx.require_floor("copy methods examined", n, 4)
 
 
 # ================================================================================================ (c)(d)
